@@ -1499,11 +1499,8 @@ class Bits:
 
     def tobitarray(self) -> bitarray.bitarray:
         """Convert the bitstring to a bitarray object."""
-        if self._bitstore.modified_length is not None:
-            # Removes the offset and truncates to length
-            return self._bitstore.getslice(0, len(self))._bitarray
-        else:
-            return self._bitstore._bitarray
+        # Always a new bitarray: the internal buffer may be shared and must not be exposed to mutation.
+        return bitarray.bitarray(self._bitstore._logical())
 
     def tofile(self, f: BinaryIO) -> None:
         """Write the bitstring to a file object, padding with zero bits if needed.
